@@ -55,9 +55,16 @@
 (*    duplicate entries are C06's subject)                                 *)
 (*  - the throttle (3 concurrent blob puts) is not modelled: every         *)
 (*    interleaving of the copy goroutines is allowed (superset)            *)
-(*  - an operation that fails stops at once (the driver's rc.Close after a *)
-(*    failed "+gc" operation is not modelled; it could only remove         *)
-(*    unreferenced files)                                                  *)
+(*  - an operation that fails by itself (Fail: bad content, missing tag)    *)
+(*    stops at once; an operation INTERRUPTED WITHOUT DEATH (action Fault: *)
+(*    a system call returns an error - disk full, file size limit, EMFILE, *)
+(*    permission, I/O error - or the goroutine's source reader fails       *)
+(*    because the caller's context was cancelled / the connection broke)   *)
+(*    takes the code's error path: every function returns the error, the   *)
+(*    deferred unlocks run, a copy waits for all its goroutines and does   *)
+(*    not push the manifest, and the command's rc.Close (GC) follows when  *)
+(*    the scenario has one; nothing is undone (no error path of the code   *)
+(*    removes a file)                                                      *)
 (*  - the order in which os.ReadDir / the tar reader / the driver present  *)
 (*    blobs is left open (any order)                                       *)
 (*  - MarkerMode = "ifbad" is the code (baseline of every config that is   *)
@@ -74,10 +81,12 @@ EXTENDS Naturals, Sequences, FiniteSets, TLC, SequencesExt
 CONSTANTS Scenarios,      \* set of [start, kind, t, o, gc, tar]
           MaxCrash,       \* 1: crash + retry; 2: the retry may crash as well
           MarkerMode,     \* "ifbad" (the code, baseline) | "rewrite" (as found before 5457c02)
-          MarkerWindow    \* FALSE: no crash while oci-layout is truncated (only meaningful with "rewrite")
+          MarkerWindow,   \* FALSE: no crash while oci-layout is truncated (only meaningful with "rewrite")
+          MaxFault        \* number of error returns / failing source readers in the first attempt (0: none)
 
 VARIABLES fs,     \* [marker, index, cas, tmps, dirs]   the directory
-          pr,     \* [thr, par, loc, mu, mod, gcl, seen]  the writing process
+          pr,     \* [thr, par, loc, mu, mod, gcl, seen, fl]  the writing process (fl: goroutines that will find an error
+                  \*                                         when they have joined their children)
           ctl     \* [phase, crashes, scen, res]
 vars == <<fs, pr, ctl>>
 
@@ -298,6 +307,8 @@ Fin(p) == [p EXCEPT !.loc = [c \in Thr |-> IF p.thr[c] = <<>> THEN 0 ELSE p.loc[
 \* os.CreateTemp picks an unused random name; the model names a temp file by the smallest unused number
 NewTmp == CHOOSE f \in 1..(Cardinality(DOMAIN fs.tmps) + 1) : f \notin DOMAIN fs.tmps /\ \A g \in 1..(f - 1) : g \in DOMAIN fs.tmps
 
+\* what the caller's goroutine still does after an error came back to it: the command's rc.Close
+ErrPath == IF ctl.scen.gc THEN <<Ins("Close")>> ELSE <<>>
 \* one step of thread t: expand macros at the head, then execute ONE primitive
 Do(t) ==
   LET st == Norm(pr.thr[t]) IN
@@ -328,8 +339,11 @@ Do(t) ==
                                                         ELSE pr.thr[c]],
                                !.par = [c \in Thr |-> IF \E j \in 1..Len(h.p) : slotOf(j) = c THEN t ELSE pr.par[c]]])
         /\ UNCHANGED <<fs, ctl>>
-     \/ /\ h.i = "Wait" /\ KidsOf(t) = {}
-        /\ pr' = Fin([pr EXCEPT !.thr = SetThr(t, rest)]) /\ UNCHANGED <<fs, ctl>>
+     \/ /\ h.i = "Wait" /\ KidsOf(t) = {}      \* a goroutine reported an error: no manifest is pushed, the error goes up
+        /\ pr' = Fin(IF t \notin pr.fl THEN [pr EXCEPT !.thr = SetThr(t, rest)]
+                     ELSE IF t = 1 THEN [pr EXCEPT !.thr = SetThr(1, ErrPath), !.gcl = 0, !.fl = {}]
+                     ELSE [pr EXCEPT !.thr = SetThr(t, <<>>), !.fl = (@ \ {t}) \cup {pr.par[t]}])
+        /\ UNCHANGED <<fs, ctl>>
      \/ /\ h.i = "CopyB"       \* imageSeenOrWait: first copier proceeds, later ones wait for it
         /\ IF h.o \in pr.seen
            THEN pr' = Fin([pr EXCEPT !.thr = SetThr(t, <<InsO("WaitSeen", h.o)>> \o rest)])
@@ -408,18 +422,36 @@ StartFS(s) ==
 
 NoThreads == [c \in Thr |-> <<>>]
 FreshProc(prog) == [thr |-> [NoThreads EXCEPT ![1] = prog], par |-> [c \in Thr |-> 0], loc |-> [c \in Thr |-> 0],
-                    mu |-> 0, mod |-> FALSE, gcl |-> 0, seen |-> {}]
+                    mu |-> 0, mod |-> FALSE, gcl |-> 0, seen |-> {}, fl |-> {}]
 
 Init == \E sc \in Scenarios :
           /\ fs = StartFS(sc.start)
           /\ pr = FreshProc(OpProg(sc))
-          /\ ctl = [phase |-> "run", crashes |-> 0, scen |-> sc, res |-> "", fol |-> FALSE]
+          /\ ctl = [phase |-> "run", crashes |-> 0, scen |-> sc, res |-> "", fol |-> FALSE, faults |-> 0, rt |-> FALSE]
 
 Step == \E t \in Thr : Do(t)
 
 \* the caller's goroutine has nothing left to do: the operation returned nil
 Return == /\ ctl.phase \in {"run", "retry", "follow"} /\ \A c \in Thr : ~Busy(c)
-          /\ ctl' = [ctl EXCEPT !.phase = "done", !.res = "ok"] /\ UNCHANGED <<fs, pr>>
+          /\ ctl' = [ctl EXCEPT !.phase = "done", !.res = IF ctl.phase = "run" /\ ctl.faults > 0 THEN "err" ELSE "ok"]
+          /\ UNCHANGED <<fs, pr>>
+
+\* INTERRUPTION WITHOUT DEATH: the system call thread t is about to make returns an error (or, for a copy
+\* goroutine, its source reader fails: cancelled context, broken connection - the same place in ocidir.BlobPut:
+\* io.Copy returns an error).  The directory is not changed by the failed call; the function returns the error
+\* (mutex released by the deferred unlock, temp file left where it is).  In the caller's goroutine the command's
+\* Close follows (a failing os.Remove inside the sweep ends Close itself); a copy goroutine reports to its parent,
+\* which joins all children first (image.go: the wait loop drains waitCh) and then returns without ManifestPut.
+Fault(t) ==
+  LET st == Norm(pr.thr[t]) IN
+  /\ ctl.phase = "run" /\ ctl.faults < MaxFault
+  /\ st # <<>>
+  /\ st[1].i \in SysPrims \/ (st[1].i = "Sweep" /\ (st[1].s # {} \/ st[1].u # {}))
+  /\ LET mu2 == IF pr.mu = t THEN 0 ELSE pr.mu IN
+     pr' = Fin(IF t = 1 THEN [pr EXCEPT !.thr = SetThr(1, IF st[1].i = "Sweep" THEN <<>> ELSE ErrPath), !.mu = mu2, !.gcl = 0]
+               ELSE [pr EXCEPT !.thr = SetThr(t, <<>>), !.mu = mu2, !.fl = @ \cup {pr.par[t]}])
+  /\ ctl' = [ctl EXCEPT !.faults = @ + 1]
+  /\ UNCHANGED fs
 
 \* SIGKILL: the directory stays as it is, the process and everything it knew is gone
 \* temp files that nobody will ever finish: only where they lie matters from now on (below blobs/<alg>/ the
@@ -438,9 +470,10 @@ Crash == /\ ctl.phase \in {"run", "retry"} /\ ctl.crashes < MaxCrash
          /\ ctl' = [ctl EXCEPT !.phase = "crashed", !.crashes = @ + 1]
 
 \* a new process repeats the interrupted operation
-Retry == /\ ctl.phase = "crashed"
+\* (also after the process returned through its error path: phase "done" of a first attempt with a fault)
+Retry == /\ ctl.phase = "crashed" \/ (ctl.phase = "done" /\ ctl.faults > 0 /\ ~ctl.rt /\ ctl.crashes = 0 /\ ~ctl.fol)
          /\ pr' = FreshProc(OpProg(ctl.scen))
-         /\ ctl' = [ctl EXCEPT !.phase = "retry"] /\ UNCHANGED fs
+         /\ ctl' = [ctl EXCEPT !.phase = "retry", !.rt = TRUE] /\ UNCHANGED fs
 
 \* instead of the retry: a new process runs ANOTHER operation that should complete the content (scen.f = import /
 \* copy of the image concerned under tag f.t, followed by Close) on the directory the crash left behind
@@ -450,7 +483,7 @@ Follow == /\ ctl.phase = "crashed" /\ ctl.scen.f.kind # ""
           /\ pr' = FreshProc(OpProg(FollowScen))
           /\ ctl' = [ctl EXCEPT !.phase = "follow", !.fol = TRUE] /\ UNCHANGED fs
 
-Next == Step \/ Return \/ Crash \/ Retry \/ Follow
+Next == Step \/ Return \/ Crash \/ Retry \/ Follow \/ (\E t \in Thr : Fault(t))
 Spec == Init /\ [][Next]_vars
 
 (* ------------------ observation of a state, judged by (P) -------------- *)
@@ -505,7 +538,7 @@ P == INSTANCE LayoutFSProp WITH pre <- PreIdx.tags, tgt <- Targets2, op <- OpRec
 \* O1-O4: every state is a crash state (also the states of the retry: it may be killed too)
 CrashStateOK == Crashable => P!Failing(P!StateChecks(Obs, EstM, EstI) \o P!FreshChecks(Obs, EstM, EstI)) = <<>>
 \* O5: the uninterrupted operation returned success => the intended state is there, completely
-ReturnOK == (ctl.phase = "done" /\ ctl.crashes = 0) =>
+ReturnOK == (ctl.phase = "done" /\ ctl.crashes = 0 /\ ctl.faults = 0) =>
               /\ ctl.res = (IF ctl.scen.kind \in {"blob_bad", "man_bad"} THEN "err" ELSE "ok")
               /\ P!Failing(P!StateChecks(Obs, TRUE, EstI) \o P!FreshChecks(Obs, TRUE, EstI) \o P!GoalChecks(Obs, "O5")) = <<>>
 \* O6: after crash(es) and a completed repetition the intended state is there (the repetition itself
@@ -517,7 +550,9 @@ FollowOK == (ctl.phase = "done" /\ ctl.fol /\ ctl.res = "ok") =>
                   ix == fs.index
               IN /\ Readable /\ f.t \in TagsOf(ix) /\ ix.tags[f.t] = f.o /\ Complete(f.o)
                  /\ P!Failing(P!StateChecks(Obs, TRUE, TRUE) \o P!FreshChecks(Obs, TRUE, TRUE)) = <<>>
-RetryOK == (ctl.phase = "done" /\ ctl.crashes > 0 /\ ~ctl.fol) =>
+\* (the same after an interruption without death: error return / failing source reader, then the repetition)
+FaultRetOK == (ctl.phase = "done" /\ ctl.faults > 0 /\ ctl.crashes = 0 /\ ~ctl.rt) => ctl.res = "err"
+RetryOK == (ctl.phase = "done" /\ (ctl.crashes > 0 \/ ctl.rt) /\ ~ctl.fol) =>
               P!Failing(P!StateChecks(Obs, TRUE, EstI) \o P!FreshChecks(Obs, TRUE, EstI) \o P!GoalChecks(Obs, "O6")) = <<>>
 \* sanity of the model itself
 TypeOK == /\ fs.marker \in {"absent", "empty", "complete"}
